@@ -220,7 +220,7 @@ pub fn c11(tier: &str, seed: u64) -> i32 {
     if ctx.run.violations.is_empty() {
         // names that a careless normalisation would identify: pairs differing only by a trailing or leading
         // blank, by letter case, by what follows a dot, by a trailing dot; each pair of one key type, same keys
-        let names: [(&str, &str, KtId); 5] = [("idx", "idx ", KtId::Str), (" lead", "lead", KtId::Bytes), ("Name", "name", KtId::U64), ("a.b", "a.c", KtId::I64), ("dot.", "dot", KtId::Vu64)];
+        let names: [(&str, &str, KtId); 6] = [("idx", "idx ", KtId::Str), (" lead", "lead", KtId::Bytes), ("Name", "name", KtId::U64), ("a.b", "a.c", KtId::I64), ("dot.", "dot", KtId::Vu64), ("m:x?", "m_x_", KtId::Str)];
         let mut maps2: Vec<BMap> = Vec::new();
         for (x, y, kt) in names {
             let m1 = std_map(kt, 8, 2, 6, seed, x);
@@ -238,6 +238,25 @@ pub fn c11(tier: &str, seed: u64) -> i32 {
         letters2.push(Letter { kind: L_DB_SYNC_ALL, map: 0, handle: 0, key: 0, val: 0 });
         let cfg2 = BCfg { maps: maps2, letters: letters2, ..cfg.clone() };
         c11_explore(&mut ctx, &cfg2, if thorough { 300.0 } else { 30.0 }, "look-alike names");
+    }
+    if ctx.run.violations.is_empty() {
+        // deeper histories on two maps through different handle kinds: slots of two neighbouring classes are
+        // freed and reused in one map (values of 200 and 300 bytes) while the other map is watched
+        let mut m0 = std_map(KtId::Bytes, 8, 2, 6, seed, "left");
+        let mut m1 = std_map(KtId::Bytes, 8, 2, 6, seed, "left.right");
+        m1.keys = m0.keys.clone();
+        m0.params.ht = HtP::Buckets(1);
+        m1.params.ht = HtP::Buckets(1);
+        let letters3 = vec![
+            Letter { kind: L_PUT, map: 0, handle: H_FIRST, key: 0, val: 0 },
+            Letter { kind: L_PUT, map: 0, handle: H_CLONE, key: 1, val: 1 },
+            Letter { kind: L_DEL, map: 0, handle: H_LOOKUP, key: 0, val: 0 },
+            Letter { kind: L_DEL, map: 0, handle: H_DBCLONE, key: 1, val: 0 },
+            Letter { kind: L_PUT, map: 1, handle: H_FIRST, key: 0, val: 1 },
+            Letter { kind: L_DEL, map: 1, handle: H_CLONE, key: 0, val: 0 },
+        ];
+        let cfg3 = BCfg { maps: vec![m0, m1], letters: letters3, val_lens: vec![200, 300], depth: if thorough { 8 } else { 6 }, ..cfg.clone() };
+        c11_explore(&mut ctx, &cfg3, if thorough { 300.0 } else { 20.0 }, "slot reuse in one map while the other is watched");
     }
     let rule = "bounded-exhaustive call sequences on live handles (engine B) over several named maps of mixed key types in one directory (maps a and b use the same keys): letters = {put k1, delete k1, put k2} on map i through handle kind h in {first handle, its clone, repeated lookup, lookup through db.clone(), *_with_params(other parameters)} plus db.sync_all; all sequences of the depth. oracle after every call: every live handle of every map answers get of every key and len per that map's own model (aliases see each other at once, other maps unchanged); at the end every map's files decode to its model; projection differential: the files of map j are a function of the subsequence of updates of map j alone - compared byte-digest-wise across all sequences with the same projection. non-trivial = projection comparisons";
     ctx.finish_model_checking(rule, &["projection_comparisons"])
